@@ -465,7 +465,8 @@ func runC16(c *Ctx) {
 								bOK = true
 								// the accepted lengths start at exactly 12 (a header-only message is a message, D14): `>= 12` / `> 11`
 								for _, gd := range guardsOfInstr(g) {
-									if cm, ok := gd.asCmp(); ok && cm.X == ssa.Value(u) {
+									// the comparison is on the decoded value, or on its widening conversion (int(length))
+									if cm, ok := gd.asCmp(); ok && (cm.X == ssa.Value(u) || cm.X == ssa.Value(cv)) {
 										n, isC := constInt(cm.Y)
 										if isC && ((cm.Op == token.GEQ && n == 12) || (cm.Op == token.GTR && n == 11)) {
 											minOK = true
@@ -648,7 +649,7 @@ func runC16(c *Ctx) {
 					if !ok {
 						return
 					}
-					if strings.HasSuffix(callName(cl), "DialContext") || strings.HasSuffix(callName(cl), ".Dial") {
+					if strings.HasSuffix(callName(cl), "DialContext") || strings.HasSuffix(callName(cl), ".Dial") || (isNewHelper(cl.Call.StaticCallee()) && strings.Contains(strings.ToLower(cl.Call.StaticCallee().Name()), "dial")) {
 						for _, a := range cl.Call.Args {
 							if cst, ok := a.(*ssa.Const); ok && cst.Value != nil && strings.HasPrefix(strings.Trim(cst.Value.ExactString(), "\""), "udp") {
 								udp = true
